@@ -3,6 +3,8 @@
 
 package gldap
 
+import "math"
+
 type controlOptions struct {
 	withGrace        int
 	withExpire       int
@@ -53,6 +55,11 @@ func WithSecondsBeforeExpiration(seconds uint) Option {
 func WithErrorCode(code uint) Option {
 	return func(o interface{}) {
 		if o, ok := o.(*controlOptions); ok {
+			// a code beyond the int range must not wrap around to a negative
+			// value (-1 means "not set"); it is invalid in any case
+			if code > math.MaxInt32 {
+				code = math.MaxInt32
+			}
 			o.withErrorCode = int(code)
 		}
 	}
